@@ -114,3 +114,79 @@ if _order:
             return spec
 
     sys.meta_path.insert(0, _Finder())
+
+# VF_SCAN_ORDER=<k> : the order in which the file system enumerates directory entries is permuted (os.scandir / os.listdir):
+#                     entries are sorted by name, then put in the k-th permutation (lexicographic index, modulo n!) for n <= 6,
+#                     or shuffled with seed k for larger directories.  Applies only below VF_SCAN_ROOT.
+_scan = os.environ.get("VF_SCAN_ORDER")
+if _scan not in (None, ""):
+    import random as _random
+
+    _scan_k = int(_scan)
+    _scan_root = os.environ.get("VF_SCAN_ROOT", "/")
+    _orig_scandir = os.scandir
+    _orig_listdir = os.listdir
+
+    def _permute(items, key):
+        items = sorted(items, key=key)
+        n = len(items)
+        if n <= 1:
+            return items
+        if n <= 6:
+            fact = 1
+            for i in range(2, n + 1):
+                fact *= i
+            k = _scan_k % fact
+            pool = list(items)
+            out = []
+            for i in range(n, 0, -1):
+                fact //= i
+                out.append(pool.pop(k // fact))
+                k %= fact
+            return out
+        _random.Random(_scan_k * 1000003 + n).shuffle(items)
+        return items
+
+    class _Scan:
+        def __init__(self, entries):
+            self._it = iter(entries)
+
+        def __iter__(self):
+            return self
+
+        def __next__(self):
+            return next(self._it)
+
+        def __enter__(self):
+            return self
+
+        def __exit__(self, *a):
+            return False
+
+        def close(self):
+            pass
+
+    def _in_root(path):
+        try:
+            p = os.path.abspath(os.fspath(path)) if not isinstance(path, int) else None
+        except TypeError:
+            return False
+        if isinstance(p, bytes):
+            return False
+        return p is not None and (p + os.sep).startswith(_scan_root.rstrip(os.sep) + os.sep)
+
+    def scandir(path="."):
+        if not _in_root(path):
+            return _orig_scandir(path)
+        with _orig_scandir(path) as it:
+            entries = list(it)
+        return _Scan(_permute(entries, key=lambda e: e.name))
+
+    def listdir(path="."):
+        res = _orig_listdir(path)
+        if not _in_root(path):
+            return res
+        return _permute(res, key=lambda n: n)
+
+    os.scandir = scandir
+    os.listdir = listdir
